@@ -920,3 +920,538 @@ Proof.
 Qed.
 
 End Trace.
+
+(* ------------------------------------------------------------------ the Prop statement implies the executable oracle *)
+Lemma bytes_eqb_refl : forall a, bytes_eqb a a = true.
+Proof. intros a. unfold bytes_eqb. destruct (list_eq_dec N.eq_dec a a); [reflexivity|congruence]. Qed.
+
+Lemma doc_eqb_refl : forall a, doc_eqb a a = true.
+Proof. intros a. unfold doc_eqb. apply bytes_eqb_refl. Qed.
+
+Lemma chunk_shape_chunk_doc : forall s data, chunk_shape (chunk_doc s data) = Some s.
+Proof. reflexivity. Qed.
+
+Lemma meta_shape_meta_doc : forall s m, meta_shape (meta_doc s m) = Some (s, m).
+Proof. reflexivity. Qed.
+
+Lemma tail_okb_true : forall k rest, Forall is_chunk_doc rest -> (multi_chunk k = false -> rest = []) -> tail_okb k rest = true.
+Proof.
+  intros k rest Hr Hk. unfold tail_okb. apply andb_true_iff. split.
+  - apply forallb_forall. intros d Hd. rewrite Forall_forall in Hr. destruct (Hr d Hd) as (s & data & ->).
+    unfold is_chunk_shape. rewrite chunk_shape_chunk_doc. reflexivity.
+  - destruct (multi_chunk k); [reflexivity|]. rewrite (Hk eq_refl). reflexivity.
+Qed.
+
+Lemma out_okb_true : forall k slot ds, out_ok k slot ds -> out_okb k slot ds = true.
+Proof.
+  intros k slot ds (s & data & rest & -> & Hr & Hk). unfold out_okb. destruct slot as [m|]; cbn [opt_meta app].
+  - rewrite meta_shape_meta_doc, chunk_shape_chunk_doc, Z.eqb_refl, doc_eqb_refl, (tail_okb_true k rest Hr Hk). reflexivity.
+  - unfold is_chunk_shape. rewrite chunk_shape_chunk_doc, (tail_okb_true k rest Hr Hk). reflexivity.
+Qed.
+
+Lemma outp_okb_true : forall k slot o, outp_ok k slot o -> outp_okb k slot o = true.
+Proof. intros k slot [ds|j ds] H; [apply out_okb_true; exact H|destruct H]. Qed.
+
+Lemma trace_okb_true : forall evs k slot, trace_ok k slot evs -> trace_okb k slot evs = true.
+Proof.
+  induction evs as [|e r IH]; intros k slot H; [reflexivity|].
+  destruct H as (Hres & Hrecs & Hr). cbn [trace_okb].
+  rewrite (IH _ _ Hr), andb_true_r. apply andb_true_iff. split.
+  - destruct (ev_resolve e) as [o|]; [apply outp_okb_true; apply Hres; reflexivity|reflexivity].
+  - apply forallb_forall. intros rc Hrc. rewrite Forall_forall in Hrecs. specialize (Hrecs rc Hrc).
+    destruct rc as [o|n o]; cbn [rec_okb rec_out] in *; [apply outp_okb_true; exact Hrecs|reflexivity].
+Qed.
+
+(* ================================================================== erasing the metadata history *)
+Lemma drop_meta_app : forall a b, drop_meta (a ++ b) = drop_meta a ++ drop_meta b.
+Proof. intros a b. unfold drop_meta. apply filter_app. Qed.
+
+Lemma last_map : forall (A B : Type) (f : A -> B) l d, last (map f l) (f d) = f (last l d).
+Proof.
+  intros A B f l d. induction l as [|a l IH]; [reflexivity|].
+  destruct l as [|b l]; [reflexivity|]. exact IH.
+Qed.
+
+Lemma removelast_map : forall (A B : Type) (f : A -> B) l, removelast (map f l) = map f (removelast l).
+Proof.
+  intros A B f l. induction l as [|a l IH]; [reflexivity|].
+  destruct l as [|b l]; [reflexivity|]. cbn [map] in *. cbn [removelast] in *. rewrite IH. reflexivity.
+Qed.
+
+Lemma fold_left_map_same : forall (A B : Type) (g : A -> B -> A) (f : B -> B) l a,
+  (forall a x, g a (f x) = g a x) -> fold_left g (map f l) a = fold_left g l a.
+Proof.
+  intros A B g f l. induction l as [|x l IH]; intros a H; [reflexivity|].
+  cbn [map fold_left]. rewrite H. apply IH. exact H.
+Qed.
+
+(* ---- base ---- *)
+Lemma bc_add_unfold : forall b d now, bc_add b d now = (fst (bc_add b d now), snd (bc_add b d now)).
+Proof. intros. apply surjective_pairing. Qed.
+
+Lemma bc_add_erase : forall b d now,
+  bc_add (bc_erase b) d now = (bc_erase (fst (bc_add b d now)), snd (bc_add b d now)).
+Proof.
+  intros b d now. unfold bc_add, bc_erase, bc_set_meta. cbn [bc_ref bc_meta bc_max bc_rows bc_last bc_started].
+  destruct (bc_ref b) eqn:E; [|reflexivity]. cbv zeta.
+  repeat match goal with |- context [if ?x then _ else _] => destruct x; try reflexivity end;
+    cbn [fst snd]; rewrite E; reflexivity.
+Qed.
+
+Lemma bc_info_erase : forall b, bc_info (bc_erase b) = bc_info b.
+Proof. reflexivity. Qed.
+
+Lemma bc_reset_erase : forall b, bc_reset (bc_erase b) = bc_erase (bc_reset b).
+Proof. reflexivity. Qed.
+
+Lemma bc_set_meta_erase : forall b m, bc_erase (bc_set_meta b m) = bc_erase b.
+Proof. reflexivity. Qed.
+
+Section Erase.
+Variable deflate : bytes -> bytes.
+
+Lemma bc_resolve_erase : forall b, bc_resolve deflate (bc_erase b) = option_map drop_meta (bc_resolve deflate b).
+Proof.
+  intros b. unfold bc_resolve, bc_erase, bc_set_meta. cbn [bc_ref bc_meta bc_max bc_rows bc_last bc_started].
+  destruct (bc_ref b); [|reflexivity]. destruct (bc_meta b); reflexivity.
+Qed.
+
+(* ---- batch ---- *)
+Lemma ba_add_unfold : forall b d now,
+  ba_add b d now =
+  let last_c := last (ba_chunks b) (bc_new (ba_max b)) in
+  if ba_max b <=? snd (bc_info last_c)
+  then (mkBatch (ba_max b) (ba_chunks b ++ [fst (bc_add (bc_new (ba_max b)) d now)]),
+        of_add_res (snd (bc_add (bc_new (ba_max b)) d now)))
+  else (mkBatch (ba_max b) (removelast (ba_chunks b) ++ [fst (bc_add last_c d now)]),
+        of_add_res (snd (bc_add last_c d now))).
+Proof.
+  intros b d now. unfold ba_add. cbv zeta.
+  destruct (ba_max b <=? snd (bc_info (last (ba_chunks b) (bc_new (ba_max b))))).
+  - destruct (bc_add (bc_new (ba_max b)) d now). reflexivity.
+  - destruct (bc_add (last (ba_chunks b) (bc_new (ba_max b))) d now). reflexivity.
+Qed.
+
+Lemma last_map_bc_erase : forall l n, last (map bc_erase l) (bc_new n) = bc_erase (last l (bc_new n)).
+Proof. intros l n. change (bc_new n) with (bc_erase (bc_new n)) at 1. apply last_map. Qed.
+
+Lemma bc_add_new_erased : forall n d now, fst (bc_add (bc_new n) d now) = bc_erase (fst (bc_add (bc_new n) d now)).
+Proof.
+  intros n d now. pose proof (bc_add_erase (bc_new n) d now) as H.
+  change (bc_erase (bc_new n)) with (bc_new n) in H. apply (f_equal fst) in H. exact H.
+Qed.
+
+Lemma ba_add_erase : forall b d now,
+  ba_add (ba_erase b) d now = (ba_erase (fst (ba_add b d now)), snd (ba_add b d now)).
+Proof.
+  intros [n l] d now. rewrite !ba_add_unfold. cbv zeta. unfold ba_erase. cbn [ba_chunks ba_max].
+  rewrite !last_map_bc_erase, bc_info_erase.
+  destruct (n <=? snd (bc_info (last l (bc_new n)))); cbn [fst snd ba_chunks ba_max].
+  - rewrite map_app. cbn [map]. rewrite <- bc_add_new_erased. reflexivity.
+  - rewrite !bc_add_erase. cbn [fst snd]. rewrite map_app, removelast_map. reflexivity.
+Qed.
+
+Lemma fold_rstep_erase : forall l acc,
+  fold_left (rstep deflate) (map bc_erase l) (option_map drop_meta acc) =
+  option_map drop_meta (fold_left (rstep deflate) l acc).
+Proof.
+  induction l as [|c l IH]; intros acc; [reflexivity|].
+  cbn [map fold_left]. rewrite <- IH. f_equal. unfold rstep. rewrite bc_resolve_erase.
+  destruct acc as [a|]; [|reflexivity]. destruct (bc_resolve deflate c) as [x|]; [|reflexivity].
+  cbn [option_map]. rewrite drop_meta_app. reflexivity.
+Qed.
+
+Lemma ba_resolve_erase : forall b, ba_resolve deflate (ba_erase b) = option_map drop_meta (ba_resolve deflate b).
+Proof.
+  intros b. change (ba_resolve deflate (ba_erase b)) with (fold_left (rstep deflate) (map bc_erase (ba_chunks b)) (option_map drop_meta (Some []))).
+  rewrite fold_rstep_erase. reflexivity.
+Qed.
+
+Lemma ba_info_erase : forall b, ba_info (ba_erase b) = ba_info b.
+Proof.
+  intros b. unfold ba_info, ba_erase. cbn [ba_chunks]. apply fold_left_map_same.
+  intros [m s] c. rewrite bc_info_erase. reflexivity.
+Qed.
+
+Lemma ba_set_meta_erase : forall b m, ba_erase (ba_set_meta b m) = ba_erase b.
+Proof. intros b m. unfold ba_set_meta, ba_erase. destruct (ba_chunks b) as [|c r] eqn:E; [rewrite E; reflexivity|reflexivity]. Qed.
+
+Lemma ba_new_erase : forall n, ba_erase (ba_new n) = ba_new n.
+Proof. reflexivity. Qed.
+
+(* ---- dyn ---- *)
+Lemma dy_add_unfold : forall x d now,
+  dy_add x d now =
+  match dy_hash x with
+  | None => match dy_chunks x with
+            | b0 :: r => (mkDyn (dy_max x) (fst (ba_add b0 d now) :: r) (Some (fst (schema_sig d))), snd (ba_add b0 d now))
+            | [] => (x, RNoWriter)
+            end
+  | Some h =>
+      if bytes_eqb h (fst (schema_sig d))
+      then (mkDyn (dy_max x) (removelast (dy_chunks x) ++ [fst (ba_add (last (dy_chunks x) (ba_new (dy_max x))) d now)]) (dy_hash x),
+            snd (ba_add (last (dy_chunks x) (ba_new (dy_max x))) d now))
+      else (mkDyn (dy_max x) (dy_chunks x ++ [fst (ba_add (ba_new (dy_max x)) d now)]) (Some (fst (schema_sig d))),
+            snd (ba_add (ba_new (dy_max x)) d now))
+  end.
+Proof.
+  intros x d now. unfold dy_add. cbv zeta. destruct (dy_hash x) as [h|].
+  - destruct (bytes_eqb h (fst (schema_sig d))).
+    + destruct (ba_add (last (dy_chunks x) (ba_new (dy_max x))) d now). reflexivity.
+    + destruct (ba_add (ba_new (dy_max x)) d now). reflexivity.
+  - destruct (dy_chunks x) as [|b0 r]; [reflexivity|]. destruct (ba_add b0 d now). reflexivity.
+Qed.
+
+Lemma last_map_ba_erase : forall l n, last (map ba_erase l) (ba_new n) = ba_erase (last l (ba_new n)).
+Proof. intros l n. change (ba_new n) with (ba_erase (ba_new n)) at 1. apply last_map. Qed.
+
+Lemma ba_add_new_erased : forall n d now, fst (ba_add (ba_new n) d now) = ba_erase (fst (ba_add (ba_new n) d now)).
+Proof.
+  intros n d now. pose proof (ba_add_erase (ba_new n) d now) as H.
+  change (ba_erase (ba_new n)) with (ba_new n) in H. apply (f_equal fst) in H. exact H.
+Qed.
+
+Lemma dy_add_erase : forall x d now,
+  dy_add (dy_erase x) d now = (dy_erase (fst (dy_add x d now)), snd (dy_add x d now)).
+Proof.
+  intros [n l h] d now. rewrite !dy_add_unfold. unfold dy_erase. cbn [dy_chunks dy_max dy_hash].
+  destruct h as [h|].
+  - destruct (bytes_eqb h (fst (schema_sig d))); cbn [fst snd dy_chunks dy_max dy_hash].
+    + rewrite !last_map_ba_erase, !ba_add_erase. cbn [fst snd]. rewrite map_app, removelast_map. reflexivity.
+    + rewrite map_app. cbn [map]. rewrite <- ba_add_new_erased. reflexivity.
+  - destruct l as [|b0 r]; cbn [map fst snd dy_chunks dy_max dy_hash]; [reflexivity|].
+    rewrite !ba_add_erase. reflexivity.
+Qed.
+
+Lemma fold_dstep_erase : forall l acc,
+  fold_left (dstep deflate) (map ba_erase l) (option_map drop_meta acc) =
+  option_map drop_meta (fold_left (dstep deflate) l acc).
+Proof.
+  induction l as [|c l IH]; intros acc; [reflexivity|].
+  cbn [map fold_left]. rewrite <- IH. f_equal. unfold dstep. rewrite ba_resolve_erase.
+  destruct acc as [a|]; [|reflexivity]. destruct (ba_resolve deflate c) as [x|]; [|reflexivity].
+  cbn [option_map]. rewrite drop_meta_app. reflexivity.
+Qed.
+
+Lemma dy_resolve_erase : forall x, dy_resolve deflate (dy_erase x) = option_map drop_meta (dy_resolve deflate x).
+Proof.
+  intros x. change (dy_resolve deflate (dy_erase x)) with (fold_left (dstep deflate) (map ba_erase (dy_chunks x)) (option_map drop_meta (Some []))).
+  rewrite fold_dstep_erase. reflexivity.
+Qed.
+
+Lemma dy_info_erase : forall x, dy_info (dy_erase x) = dy_info x.
+Proof.
+  intros x. unfold dy_info, dy_erase. cbn [dy_chunks]. apply fold_left_map_same.
+  intros [m s] c. rewrite ba_info_erase. reflexivity.
+Qed.
+
+Lemma dy_set_meta_erase : forall x m, dy_erase (dy_set_meta x m) = dy_erase x.
+Proof.
+  intros x m. unfold dy_set_meta, dy_erase. destruct (dy_chunks x) as [|b r] eqn:E; [rewrite E; reflexivity|].
+  cbn [dy_chunks dy_max dy_hash map]. rewrite ba_set_meta_erase. reflexivity.
+Qed.
+
+End Erase.
+
+(* ---- writer, flush, streaming ---- *)
+Definition er3 {A B : Type} (e : A -> A) (t : A * writer * B) : A * writer * B :=
+  let '(c, w, x) := t in (e c, writer_erase w, x).
+
+Lemma w_write_erase : forall w p,
+  w_write (writer_erase w) (out_erase p) = (writer_erase (fst (w_write w p)), snd (w_write w p)).
+Proof.
+  intros w p. unfold w_write, writer_erase. cbn [w_faults w_log w_closed].
+  destruct (w_faults w) as [|[| |n] r]; cbn [fst snd w_log w_faults w_closed tl]; rewrite ?map_app; reflexivity.
+Qed.
+
+Lemma flush_with_erase : forall (A : Type) (info : A -> Z * Z) (resolve : A -> option outp) (rst e : A -> A) c w,
+  (forall c, info (e c) = info c) -> (forall c, resolve (e c) = option_map out_erase (resolve c)) ->
+  (forall c, rst (e c) = e (rst c)) ->
+  flush_with info resolve rst (e c) (writer_erase w) = er3 e (flush_with info resolve rst c w).
+Proof.
+  intros A info resolve rst e c w Hi Hr Hrst. unfold flush_with. rewrite Hi.
+  destruct (snd (info c) =? 0); [reflexivity|]. rewrite Hr.
+  destruct (resolve c) as [p|]; cbn [option_map]; [|reflexivity].
+  rewrite w_write_erase. destruct (w_write w p) as [w1 ok]. cbn [fst snd].
+  destruct ok; [rewrite Hrst|]; reflexivity.
+Qed.
+
+Lemma in_info_erase : forall i, in_info (in_erase i) = in_info i.
+Proof. intros [b|u]; reflexivity. Qed.
+
+Lemma in_reset_erase : forall i, in_reset (in_erase i) = in_erase (in_reset i).
+Proof. intros [b|u]; reflexivity. Qed.
+
+Lemma in_add_erase : forall i d now, in_add (in_erase i) d now = (in_erase (fst (in_add i d now)), snd (in_add i d now)).
+Proof.
+  intros [b|u] d now; cbn [in_erase in_add].
+  - rewrite bc_add_erase. destruct (bc_add b d now). reflexivity.
+  - destruct (uc_add u d). reflexivity.
+Qed.
+
+Section Erase2.
+Variable deflate : bytes -> bytes.
+
+Lemma in_resolve_erase : forall i, in_resolve deflate (in_erase i) = option_map out_erase (in_resolve deflate i).
+Proof.
+  intros [b|u]; cbn [in_erase in_resolve].
+  - rewrite bc_resolve_erase. destruct (bc_resolve deflate b); reflexivity.
+  - unfold uc_resolve. destruct (uc_samples u); reflexivity.
+Qed.
+
+Lemma sc_reset_erase : forall s, sc_reset (sc_erase s) = sc_erase (sc_reset s).
+Proof. intros s. unfold sc_reset, sc_erase. cbn [sc_max sc_count sc_inner]. rewrite in_reset_erase. reflexivity. Qed.
+
+Lemma sc_flush_erase : forall s w, sc_flush deflate (sc_erase s) (writer_erase w) = er3 sc_erase (sc_flush deflate s w).
+Proof.
+  intros s w. unfold sc_flush. apply (flush_with_erase scoll _ _ sc_reset sc_erase s w).
+  - intros c. apply in_info_erase.
+  - intros c. apply in_resolve_erase.
+  - apply sc_reset_erase.
+Qed.
+
+Lemma sc_add_erase : forall s w d now,
+  sc_add deflate (sc_erase s) (writer_erase w) d now = er3 sc_erase (sc_add deflate s w d now).
+Proof.
+  intros s w d now. unfold sc_add. cbn [sc_erase sc_max sc_count].
+  assert (Hpre : (if sc_max s <=? sc_count s then sc_flush deflate (sc_erase s) (writer_erase w)
+                  else (sc_erase s, writer_erase w, true))
+                 = er3 sc_erase (if sc_max s <=? sc_count s then sc_flush deflate s w else (s, w, true))).
+  { destruct (sc_max s <=? sc_count s); [apply sc_flush_erase|reflexivity]. }
+  fold (sc_erase s). rewrite Hpre.
+  destruct (if sc_max s <=? sc_count s then sc_flush deflate s w else (s, w, true)) as [[s1 w1] ok].
+  cbn [er3]. destruct ok; cbn [negb]; [|reflexivity].
+  cbn [sc_erase sc_inner sc_max sc_count]. rewrite in_add_erase.
+  destruct (in_add (sc_inner s1) d now) as [i' r]. cbn [fst snd]. destruct r; reflexivity.
+Qed.
+
+Definition sd_erase (c : sdcoll) : sdcoll := mkSdcoll (sd_hash c) (sd_mcount c) (sc_erase (sd_s c)).
+
+Lemma sd_flush_erase : forall c w, sd_flush deflate (sd_erase c) (writer_erase w) = er3 sd_erase (sd_flush deflate c w).
+Proof.
+  intros c w. unfold sd_flush. apply (flush_with_erase sdcoll _ _ sd_reset sd_erase c w).
+  - intros x. apply in_info_erase.
+  - intros x. apply in_resolve_erase.
+  - intros x. unfold sd_reset, sd_erase. cbn [sd_s sd_hash sd_mcount]. rewrite sc_reset_erase. reflexivity.
+Qed.
+
+Lemma sd_add_erase : forall c w d now,
+  sd_add deflate (sd_erase c) (writer_erase w) d now = er3 sd_erase (sd_add deflate c w d now).
+Proof.
+  intros c w d now. unfold sd_add. destruct (schema_sig d) as [sig num].
+  cbn [sd_erase sd_hash sd_mcount sd_s sc_erase sc_count]. fold (sc_erase (sd_s c)). fold (sd_erase c).
+  match goal with |- context [if ?ch then _ else (c, w, true)] => set (changed := ch) end.
+  assert (Hpre :
+    (if changed
+     then let '(c', w', ok') := if 0 <? sc_count (sd_s c) then sd_flush deflate (sd_erase c) (writer_erase w)
+                                else (sd_erase c, writer_erase w, true) in
+          if ok' then (mkSdcoll (Some sig) num (sd_s c'), w', true) else (c', w', false)
+     else (sd_erase c, writer_erase w, true))
+    = er3 sd_erase
+        (if changed
+         then let '(c', w', ok') := if 0 <? sc_count (sd_s c) then sd_flush deflate c w else (c, w, true) in
+              if ok' then (mkSdcoll (Some sig) num (sd_s c'), w', true) else (c', w', false)
+         else (c, w, true))).
+  { destruct changed; [|reflexivity].
+    destruct (0 <? sc_count (sd_s c)); [|reflexivity].
+    rewrite sd_flush_erase. destruct (sd_flush deflate c w) as [[c0 w0] ok0]. cbn [er3].
+    destruct ok0; reflexivity. }
+  rewrite Hpre.
+  destruct (if changed
+            then let '(c', w', ok') := if 0 <? sc_count (sd_s c) then sd_flush deflate c w else (c, w, true) in
+                 if ok' then (mkSdcoll (Some sig) num (sd_s c'), w', true) else (c', w', false)
+            else (c, w, true)) as [[c1 w1] ok].
+  cbn [er3]. destruct ok; cbn [negb]; [|reflexivity].
+  cbn [sd_erase sd_s sd_hash sd_mcount]. rewrite sc_add_erase.
+  destruct (sc_add deflate (sd_s c1) w1 d now) as [[s2 w2] r2]. reflexivity.
+Qed.
+
+(* ---- all kinds ---- *)
+Lemma c_info_erase : forall c, c_info (coll_erase c) = c_info c.
+Proof.
+  intros [b|b|x|s|s|u]; cbn [coll_erase c_info]; try reflexivity.
+  - apply ba_info_erase.
+  - apply dy_info_erase.
+  - apply in_info_erase.
+  - apply in_info_erase.
+Qed.
+
+Lemma c_resolve_erase : forall c, c_resolve deflate (coll_erase c) = option_map out_erase (c_resolve deflate c).
+Proof.
+  intros [b|b|x|s|s|u]; cbn [coll_erase c_resolve].
+  - rewrite bc_resolve_erase. destruct (bc_resolve deflate b); reflexivity.
+  - rewrite ba_resolve_erase. destruct (ba_resolve deflate b); reflexivity.
+  - rewrite dy_resolve_erase. destruct (dy_resolve deflate x); reflexivity.
+  - apply in_resolve_erase.
+  - apply in_resolve_erase.
+  - unfold uc_resolve. destruct (uc_samples u); reflexivity.
+Qed.
+
+Lemma c_reset_erase : forall c, c_reset (coll_erase c) = coll_erase (c_reset c).
+Proof.
+  intros [b|b|x|s|s|u]; cbn [coll_erase c_reset]; try reflexivity.
+  - rewrite sc_reset_erase. reflexivity.
+  - unfold sd_reset. cbn [sd_s]. rewrite sc_reset_erase. reflexivity.
+Qed.
+
+Lemma c_add_erase : forall c w d now,
+  c_add deflate (coll_erase c) (writer_erase w) d now = er3 coll_erase (c_add deflate c w d now).
+Proof.
+  intros [b|b|x|s|s|u] w d now; cbn [coll_erase c_add].
+  - rewrite bc_add_erase. destruct (bc_add b d now). reflexivity.
+  - rewrite ba_add_erase. destruct (ba_add b d now). reflexivity.
+  - rewrite dy_add_erase. destruct (dy_add x d now). reflexivity.
+  - rewrite sc_add_erase. destruct (sc_add deflate s w d now) as [[s1 w1] r]. reflexivity.
+  - fold (sd_erase s). rewrite sd_add_erase. destruct (sd_add deflate s w d now) as [[s1 w1] r]. reflexivity.
+  - destruct (uc_add u d). reflexivity.
+Qed.
+
+Lemma c_add_bad_erase : forall c w,
+  c_add_bad deflate (coll_erase c) (writer_erase w) = er3 coll_erase (c_add_bad deflate c w).
+Proof.
+  intros [b|b|x|s|s|u] w; cbn [coll_erase c_add_bad]; try reflexivity.
+  cbn [sc_erase sc_max sc_count]. fold (sc_erase s).
+  destruct (sc_max s <=? sc_count s); [|reflexivity].
+  rewrite sc_flush_erase. destruct (sc_flush deflate s w) as [[s1 w1] ok]. reflexivity.
+Qed.
+
+Lemma c_flush_erase : forall c w,
+  c_flush deflate (coll_erase c) (writer_erase w) = er3 coll_erase (c_flush deflate c w).
+Proof.
+  intros c w.
+  assert (Hgen : flush_with c_info (c_resolve deflate) c_reset (coll_erase c) (writer_erase w)
+                 = er3 coll_erase (flush_with c_info (c_resolve deflate) c_reset c w)).
+  { apply flush_with_erase; [apply c_info_erase|apply c_resolve_erase|apply c_reset_erase]. }
+  destruct c as [b|b|x|s|s|u]; try exact Hgen; cbn [coll_erase c_flush].
+  - rewrite sc_flush_erase. destruct (sc_flush deflate s w) as [[s1 w1] ok]. reflexivity.
+  - fold (sd_erase s). rewrite sd_flush_erase. destruct (sd_flush deflate s w) as [[s1 w1] ok]. reflexivity.
+Qed.
+
+Lemma c_set_meta_erase : forall c m, comp_coll c = true -> coll_erase (c_set_meta c m) = coll_erase c.
+Proof.
+  intros [b|b|x|s|s|u] m Hc; cbn [coll_erase c_set_meta]; try reflexivity.
+  - rewrite ba_set_meta_erase. reflexivity.
+  - rewrite dy_set_meta_erase. reflexivity.
+  - cbn [comp_coll] in Hc. unfold sc_erase. cbn [sc_max sc_count sc_inner].
+    destruct (sc_inner s); [reflexivity|discriminate Hc].
+  - cbn [comp_coll] in Hc. unfold sc_erase. cbn [sd_hash sd_mcount sd_s sc_max sc_count sc_inner].
+    destruct (sc_inner (sd_s s)); [reflexivity|discriminate Hc].
+  - discriminate Hc.
+Qed.
+
+Lemma minv_comp : forall k c slot, minv k c slot -> comp_coll c = true.
+Proof.
+  intros k c slot H. destruct k, c; cbn [minv] in H; try contradiction; try reflexivity.
+  - destruct H as (b & Hi & _). cbn [comp_coll]. rewrite Hi. reflexivity.
+  - destruct H as (b & Hi & _). cbn [comp_coll]. rewrite Hi. reflexivity.
+Qed.
+
+(* one operation other than SetMetadata commutes with the erasure *)
+Lemma step_erase : forall c w o, is_set_meta o = false ->
+  step deflate (coll_erase c, writer_erase w) o =
+  (let '((c', w'), b) := step deflate (c, w) o in ((coll_erase c', writer_erase w'), obs_erase b)) /\
+  is_bset (snd (step deflate (c, w) o)) = false.
+Proof.
+  intros c w o Ho. unfold step. destruct o as [d now| | | | |m|]; try discriminate Ho.
+  - rewrite c_add_erase. destruct (c_add deflate c w d now) as [[c1 w1] r]. split; reflexivity.
+  - rewrite c_add_bad_erase. destruct (c_add_bad deflate c w) as [[c1 w1] r]. split; reflexivity.
+  - rewrite c_resolve_erase. destruct (c_resolve deflate c); split; reflexivity.
+  - rewrite c_reset_erase. split; reflexivity.
+  - rewrite c_flush_erase. destruct (c_flush deflate c w) as [[c1 w1] ok]. split; reflexivity.
+  - rewrite c_info_erase. destruct (c_info c). split; reflexivity.
+Qed.
+
+Lemma run_erase : forall ops k c w slot, minv k c slot ->
+  run deflate (coll_erase c, writer_erase w) (ops_erase ops) =
+  (let '((c', w'), bs) := run deflate (c, w) ops in ((coll_erase c', writer_erase w'), obss_erase bs)).
+Proof.
+  induction ops as [|o r IH]; intros k c w slot Hinv; [reflexivity|].
+  unfold ops_erase. cbn [filter]. fold (ops_erase r).
+  destruct (is_set_meta o) eqn:Eo; cbn [negb].
+  - destruct o; try discriminate Eo. cbn [run step].
+    pose proof (minv_set_meta k c slot m Hinv) as Hinv'.
+    rewrite <- (c_set_meta_erase c m (minv_comp k c slot Hinv)).
+    rewrite (IH k _ w m Hinv').
+    destruct (run deflate (c_set_meta c m, w) r) as [[c' w'] bs]. reflexivity.
+  - cbn [run]. destruct (step_erase c w o Eo) as [Hs Hb]. rewrite Hs.
+    destruct (step deflate (c, w) o) as [[c1 w1] b] eqn:Es.
+    destruct (step_minv deflate k c w o c1 w1 b slot Hinv Es) as (recs & _ & _ & _ & Hinv1).
+    rewrite (IH k c1 w1 _ Hinv1).
+    destruct (run deflate (c1, w1) r) as [[c' w'] bs].
+    unfold obss_erase. cbn [filter snd] in *. rewrite Hb. reflexivity.
+Qed.
+
+Lemma new_coll_erase : forall k n, coll_erase (new_coll k n) = new_coll k n.
+Proof. intros [] n; reflexivity. Qed.
+
+Lemma resolve_outs_erase : forall bs, resolve_outs (obss_erase bs) = map out_erase (resolve_outs bs).
+Proof.
+  induction bs as [|b r IH]; [reflexivity|].
+  unfold obss_erase. cbn [filter]. destruct b as [x|[o|]| | | |]; cbn [is_bset negb map obs_erase resolve_outs flat_map app];
+    fold (obss_erase r); fold (resolve_outs (obss_erase r)); fold (resolve_outs r); rewrite ?IH; reflexivity.
+Qed.
+
+Theorem meta_emit_erase : forall k n faults ops, compressing k = true ->
+  let r1 := run deflate (new_coll k n, mkWriter [] faults false) ops in
+  let r2 := run deflate (new_coll k n, mkWriter [] faults false) (ops_erase ops) in
+  fst (fst r2) = coll_erase (fst (fst r1)) /\
+  w_log (snd (fst r2)) = map wrec_erase (w_log (snd (fst r1))) /\
+  snd r2 = obss_erase (snd r1) /\
+  resolve_outs (snd r2) = map out_erase (resolve_outs (snd r1)).
+Proof.
+  intros k n faults ops Hk r1 r2.
+  pose proof (run_erase ops k (new_coll k n) (mkWriter [] faults false) None (minv_init k n Hk)) as H.
+  rewrite new_coll_erase in H. change (writer_erase (mkWriter [] faults false)) with (mkWriter [] faults false) in H.
+  unfold r2. rewrite H. unfold r1. destruct (run deflate (new_coll k n, mkWriter [] faults false) ops) as [[c' w'] bs].
+  cbn [fst snd]. repeat split. apply resolve_outs_erase.
+Qed.
+
+End Erase2.
+
+(* ---- the decoded samples do not see the metadata documents ---- *)
+Section Decode.
+Variable inflate : bytes -> option bytes.
+Variable cap : option N.
+
+Lemma drop_meta_cons : forall d r, drop_meta (d :: r) = if is_meta d then drop_meta r else d :: drop_meta r.
+Proof. intros d r. unfold drop_meta. cbn [filter]. destruct (is_meta d); reflexivity. Qed.
+
+Lemma read_chunks_drop_meta : forall ds m1 m2,
+  map unmeta (fst (read_chunks_gen inflate cap m1 ds)) =
+  map unmeta (fst (read_chunks_gen inflate cap m2 (drop_meta ds))) /\
+  snd (read_chunks_gen inflate cap m1 ds) = snd (read_chunks_gen inflate cap m2 (drop_meta ds)).
+Proof.
+  induction ds as [|d r IH]; intros m1 m2; [split; reflexivity|].
+  rewrite drop_meta_cons, read_chunks_gen_cons.
+  destruct (is_meta d) eqn:Em; [apply IH|].
+  rewrite read_chunks_gen_cons, Em.
+  destruct (is_chunkd d); cbn [negb]; [|apply IH].
+  rewrite (read_chunk_gen_meta inflate cap m1 d), (read_chunk_gen_meta inflate cap m2 d).
+  destruct (read_chunk_gen inflate cap None d) as [c|e]; [|split; reflexivity].
+  destruct (IH m1 m2) as [H1 H2].
+  destruct (read_chunks_gen inflate cap m1 r) as [cs1 e1].
+  destruct (read_chunks_gen inflate cap m2 (drop_meta r)) as [cs2 e2].
+  cbn [fst snd map] in *. split; [f_equal; exact H1|exact H2].
+Qed.
+
+Lemma structured_unmeta : forall cs, flat_map structured_docs cs = flat_map structured_docs (map unmeta cs).
+Proof. induction cs as [|c r IH]; [reflexivity|]. cbn [map flat_map]. rewrite IH. reflexivity. Qed.
+
+Lemma npoints_unmeta : forall cs, map ck_npoints cs = map ck_npoints (map unmeta cs).
+Proof. intros cs. rewrite map_map. reflexivity. Qed.
+
+Theorem decode_drop_meta : forall ds,
+  same_samples (decode_ftdc inflate cap (drop_meta ds)) (decode_ftdc inflate cap ds).
+Proof.
+  intros ds. unfold decode_ftdc.
+  destruct (read_chunks_drop_meta ds None None) as [H1 H2].
+  destruct (read_chunks_gen inflate cap None ds) as [cs1 e1].
+  destruct (read_chunks_gen inflate cap None (drop_meta ds)) as [cs2 e2].
+  cbn [fst snd] in *. subst e2.
+  rewrite (structured_unmeta cs2), (structured_unmeta cs1), (npoints_unmeta cs2), (npoints_unmeta cs1), H1.
+  destruct e1; [exact I|].
+  destruct (all_some (flat_map structured_docs (map unmeta cs2))); [|exact I].
+  split; reflexivity.
+Qed.
+
+End Decode.
